@@ -326,6 +326,8 @@ func (g *refGraph) addBranch(from string, cond int, ends []string, skipData bool
 	return ""
 }
 
+const keyedOnBothSides = "uninferred-passthrough/keyed-on-both-sides"
+
 type kOpt struct {
 	mode string // "", all, any
 	max  bool
@@ -436,17 +438,29 @@ func (g *refGraph) compile(opt string) string {
 	if len(g.pending) > 0 {
 		return "uninferred-passthrough"
 	}
+	// a passthrough node's own type is only ever told by a neighbour; a side with an input / output key
+	// is a map towards the neighbours and hides the node from them: with both keys nothing can tell it
+	both := false
 	for _, n := range g.nodes {
-		if n.pass && ((n.in == tNone && !n.inKey) || (n.out == tNone && !n.outKey)) {
-			return "uninferred-passthrough"
+		if n.pass && n.out == tNone {
+			if !(n.inKey && n.outKey) {
+				return "uninferred-passthrough"
+			}
+			both = true
 		}
 	}
+	if both {
+		return keyedOnBothSides
+	}
 	// graphs added as nodes are compiled with the options given to their node; all of them are looked at
-	// (which of several ill-formed ones is met first depends on the implementation's order)
+	// (which of several ill-formed ones is met first depends on the implementation's order: the first in
+	// key order is named, except that keyedOnBothSides is always named if it is among them)
 	childRule := ""
 	for _, c := range g.children {
-		if _, rule := c.ref.predict(Op{K: "K", Opt: c.sub.Opt}); rule != "" && childRule == "" {
-			childRule = "nested-" + c.sub.FE + "/" + rule
+		if _, rule := c.ref.predict(Op{K: "K", Opt: c.sub.Opt}); rule != "" {
+			if childRule == "" || (strings.HasSuffix(rule, keyedOnBothSides) && !strings.HasSuffix(childRule, keyedOnBothSides)) {
+				childRule = "nested-" + c.sub.FE + "/" + rule
+			}
 		}
 	}
 	if childRule != "" {
